@@ -265,6 +265,7 @@ def base_ocp(draw, methods=("MS", "SS", "DC"), allow_alg=True, quad=False, grid_
     fill_param_values(draw, sp, m["N"])
     # dynamics declared per state, or once on a concatenation of all states (the builder ignores this with set_der scales)
     sp["dyn_concat"] = draw(st.integers(0, 3)) == 0
+    sp["dyn_reversed"] = draw(st.integers(0, 2)) == 0
     return sp
 
 
